@@ -7,6 +7,7 @@ import (
 	"regexp"
 	"sort"
 	"strings"
+	"sync"
 
 	"golang.org/x/tools/go/ssa"
 )
@@ -20,6 +21,7 @@ type PropCfg struct {
 	Tagged  bool   // functions whose contract lists the property (plus the contract callees they rely on)
 	Passes  []string // dataflow passes
 	DFRoots []string // roots of the call graph inspected by the dataflow passes (default: the decode entry points)
+	StopAtTagged bool // the closure over relied-upon contracts stops at contracts that do not list this property: they are assumed here (each is verified by the checks of the properties it lists)
 	Scope   []string // if set: only reachable functions matching one of these regexps are claimed; the rest is listed as unverified
 	Explain string
 	Design  string
@@ -57,7 +59,7 @@ var propCfgs = map[string]*PropCfg{
 	"C07": {ID: "C07", Level: "proof", Tagged: true, Design: "DESIGN.md 5 C07"},
 	"C08": {ID: "C08", Level: "proof", Tagged: true, DFRoots: decodeRoots, Passes: []string{"stray-read"}, Design: "DESIGN.md 5 C08"},
 	"C09": {ID: "C09", Level: "proof", Safety: true, Tagged: true, Roots: []string{`^imagetype\.(Scan|ScanBuf|ReadAt|Buf)$`}, Design: "DESIGN.md 5 C09"},
-	"C10": {ID: "C10", Level: "proof", Tagged: true, Design: "DESIGN.md 5 C10"},
+	"C10": {ID: "C10", Level: "proof", Tagged: true, StopAtTagged: true, Design: "DESIGN.md 5 C10"},
 	"C11": {ID: "C11", Level: "proof", Tagged: true, Design: "DESIGN.md 5 C11"},
 	"C12": {ID: "C12", Level: "proof", Safety: true, Variant: true, Tagged: true, Design: "DESIGN.md 5 C12"},
 	"C14": {ID: "C14", Level: "other", Tagged: true, DFRoots: decodeRoots, Passes: []string{"alloc"}, Design: "DESIGN.md 5 C14",
@@ -135,6 +137,34 @@ func (w *World) moduleCallees(fn *ssa.Function) []*ssa.Function {
 					w.addBoundTarget(f, add)
 				}
 			}
+			// a module value handed to a dependency as an interface (zerolog Stringer/Object/Err, fmt): the dependency may call
+			// its formatting methods, at log time for instance
+			if f := com.StaticCallee(); f == nil || !inModule(f) {
+				for _, a := range com.Args {
+					mi, ok := a.(*ssa.MakeInterface)
+					if !ok {
+						continue
+					}
+					t := mi.X.Type()
+					if n, ok := t.(*types.Pointer); ok {
+						t = n.Elem()
+					}
+					nt, ok := t.(*types.Named)
+					if !ok || nt.Obj().Pkg() == nil || !strings.HasPrefix(nt.Obj().Pkg().Path(), modulePath) {
+						continue
+					}
+					ms := w.prog.MethodSets.MethodSet(mi.X.Type())
+					for _, mn := range []string{"String", "Error", "MarshalZerologObject", "MarshalZerologArray"} {
+						if sel := ms.Lookup(nt.Obj().Pkg(), mn); sel != nil {
+							mv := w.prog.MethodValue(sel)
+							add(mv)
+							depCalledMu.Lock()
+							depCalled[mv] = true
+							depCalledMu.Unlock()
+						}
+					}
+				}
+			}
 			for _, a := range com.Args {
 				if f, ok := a.(*ssa.Function); ok {
 					add(f)
@@ -164,6 +194,10 @@ func (w *World) addBoundTarget(f *ssa.Function, add func(*ssa.Function)) {
 		}
 	}
 }
+
+// depCalled: formatting methods that a dependency may call (no call site in the module: never "transparent")
+var depCalled = map[*ssa.Function]bool{}
+var depCalledMu sync.Mutex
 
 var modTypesCache []types.Type
 
